@@ -1,4 +1,5 @@
 pub mod fsutil;
+pub mod fswatch;
 pub mod par;
 pub mod report;
 pub mod rng;
